@@ -18,10 +18,10 @@ RULE = ("seeded circuits of 1-2 PopulationTemplate(n) (n in 1..6, per-unit heter
         "trajectories unit by unit incl. population outputs (one column per unit in unit order), and the explicit circuit built "
         "with add_edges_from_matrix; non-trivial = n >= 2 and a non-symmetric / non-uniform W; distinct = distinct spec hash")
 DECIDING = ['derivatives_compared', 'rows_compared', 'pop_output_columns', 'matrix_connections', 'scalar_connections',
-            'coupling_connections', 'delayed_connections', 'explicit_matrix_circuits', 'nonsquare']
+            'coupling_connections', 'delayed_connections', 'explicit_matrix_circuits', 'nonsquare', 'dynamic_coupling_models']
 ASSUMPTIONS = ['W[i, j] couples source unit j to target unit i', 'scalar weight w means w * sum_j source_j for every target']
 CASE_TIMEOUT = 240
-FOCUS = ['conn_delay', 'conn_coupling', 'conn_scalar', 'pop_n1_connected', 'conn_coupling_post_with_delay',
+FOCUS = ['dynamic_couplings_share_target', 'conn_delay', 'conn_coupling', 'conn_scalar', 'pop_n1_connected', 'conn_coupling_post_with_delay',
          'two_delayed_conns_same_source', 'coupling_src_post_same_name', 'coupling_shares_target_var',
          'matrix_delay_source_named_k']
 
@@ -56,7 +56,7 @@ def gen_pop_case(rnd, want, opened):
     raise RuntimeError('generator could not satisfy the constraints')
 
 
-def _gen_pop_case(rnd, want, opened):
+def _gen_pop_case(rnd, want, opened, dynamic_only=False):
     """returns plan dict: pops {name: {op spec, n, params}}, conns [...] and the explicit spec"""
     for attempt in range(1500):
         vals = gen.Vals(rnd)
@@ -90,7 +90,9 @@ def _gen_pop_case(rnd, want, opened):
         conns = []
         risk = set()
         dt = 1e-3
-        for _ in range(rnd.randint(1, 3) if want not in ('two_delayed_conns_same_source', 'coupling_shares_target_var') else 3):
+        dynamic_only = dynamic_only or want == 'dynamic_couplings_share_target'
+        for _ in range(rnd.randint(1, 3) if want not in ('two_delayed_conns_same_source', 'coupling_shares_target_var',
+                                                         'dynamic_couplings_share_target') else rnd.choice([2, 3])):
             sp = rnd.choice(list(pops))
             tp = rnd.choice(list(pops))
             sop, top = pops[sp]['op'], pops[tp]['op']
@@ -114,6 +116,11 @@ def _gen_pop_case(rnd, want, opened):
             if want in ('coupling_src_post_same_name', 'coupling_shares_target_var', 'conn_coupling_post_with_delay') and \
                     not any(c_['kind'] == 'coupling' for c_ in conns):
                 kind = 'coupling'
+            if want == 'dynamic_couplings_share_target':
+                kind = 'coupling'
+                if conns:
+                    tp, top, tv = conns[0]['target']
+                    nt = pops[tp]['n']
             if want == 'coupling_shares_target_var' and conns and conns[0]['kind'] == 'coupling':
                 tp, top, tv = conns[0]['target']
                 nt = pops[tp]['n']
@@ -139,7 +146,11 @@ def _gen_pop_case(rnd, want, opened):
                 if kind == 'coupling':
                     risk.add('conn_coupling')
                     post = rnd.choice([e[1] for e in ops[top]['eqs'] if e[0] == 'de'])
-                    c['form'] = rnd.choice(['sin_diff', 'prod', 'src_only'])
+                    c['form'] = rnd.choice(['sin_diff', 'prod', 'src_only', 'dynamic', 'dynamic'])
+                    if dynamic_only:
+                        c['form'] = 'dynamic'
+                    if c['form'] == 'dynamic':
+                        c['rc'] = round(vals.new() * 40, 3)       # rate constant of the edge's own state variable
                     if want == 'coupling_src_post_same_name':
                         post = [v for v, d_ in ops[top]['vars'].items() if d_[0] == 'out'][0]
                         c['form'] = rnd.choice(['sin_diff', 'prod'])
@@ -180,17 +191,21 @@ def _gen_pop_case(rnd, want, opened):
                 risk.add('pop_n1_connected')
             # where the delay acts (on the source before the coupling function, or on the coupled value) only matters when
             # the coupling depends on the post-synaptic variable or the delay is a (non-commuting) kernel
-            if c['kind'] == 'coupling' and c.get('delay') and (c['form'] != 'src_only' or c.get('spread')):
+            if c['kind'] == 'coupling' and c.get('delay') and (c['form'] not in ('src_only',) or c.get('spread')):
                 risk.add('conn_coupling_post_with_delay')
         tcount = {}
         for c in conns:
             tcount[c['target']] = tcount.get(c['target'], 0) + 1
         for c in conns:
-            if c['kind'] == 'coupling' and c['form'] != 'src_only' and c['source'][2] == c['post'] and \
+            if c['kind'] == 'coupling' and c['form'] not in ('src_only', 'dynamic') and c['source'][2] == c['post'] and \
                     (c['source'][0], c['source'][1]) != (c['target'][0], c['target'][1]):
                 risk.add('coupling_src_post_same_name')
             if c['kind'] == 'coupling' and tcount[c['target']] > 1:
-                risk.add('coupling_shares_target_var')
+                others = [c2 for c2 in conns if c2 is not c and c2['target'] == c['target']]
+                if c['form'] == 'dynamic' and all(c2['kind'] == 'coupling' and c2['form'] == 'dynamic' for c2 in others):
+                    risk.add('dynamic_couplings_share_target')      # (works on the pinned tree; part of the main sweep)
+                else:
+                    risk.add('coupling_shares_target_var')
             if c.get('spread') and c['source'][2] == 'k':
                 risk.add('matrix_delay_source_named_k')
         dsv = {}
@@ -209,6 +224,10 @@ def _gen_pop_case(rnd, want, opened):
 
 def coupling_ops(c, idx):
     """edge operator spec for a coupling connection (inputs s_pre, s_post)"""
+    if c['form'] == 'dynamic':
+        # an edge with its own state variable per (target, source) pair: zc' = rc*(s_pre - zc)
+        return {'eqs': [['de', 'zc', E.tolist(E.mul(E.var('rc'), E.sub(E.var('s_pre'), E.var('zc'))))]],
+                'vars': {'zc': ['out', 0.0], 's_pre': ['in', 0.0], 'rc': ['const', c['rc']]}}
     if c['form'] == 'sin_diff':
         ex = E.call('sin', E.sub(E.var('s_pre'), E.var('s_post')))
     elif c['form'] == 'prod':
@@ -216,7 +235,7 @@ def coupling_ops(c, idx):
     else:
         ex = E.call('tanh', E.mul(E.num(1.7), E.var('s_pre')))
     vars_ = {'c_out': ['out', 0.0], 's_pre': ['in', 0.0]}
-    if c['form'] != 'src_only':
+    if c['form'] not in ('src_only', 'dynamic'):
         vars_['s_post'] = ['in', 0.0]
     return {'eqs': [['alg', 'c_out', E.tolist(ex)]], 'vars': vars_}
 
@@ -250,7 +269,7 @@ def explicit_spec(plan_):
                     a['spread'] = c['spread']
                 if et:
                     a[f'{et}/coup_op{ci}/s_pre'] = 'source'
-                    if c['form'] != 'src_only':
+                    if c['form'] not in ('src_only', 'dynamic'):
                         a[f'{et}/coup_op{ci}/s_post'] = f'{tp}__{i}/{top}/{c["post"]}'
                 edges.append([f'{sp}__{j}/{sop}/{sv}', f'{tp}__{i}/{top}/{tv}', et, a])
     return {'ops': ops, 'node_types': nts, 'edge_types': ets, 'circ': {'name': 'c', 'nodes': nodes, 'subs': {}, 'edges': edges}}
@@ -273,7 +292,7 @@ def build_population_circuit(plan_):
             eop = OperatorTemplate(**build.op_kwargs(f'coup_op{ci}', coupling_ops(c, ci)))
             kw['edge'] = EdgeTemplate(name=f'coup{ci}', operators=[eop])
             kw['edge_var_map'] = {'s_pre': 'source'}
-            if c['form'] != 'src_only':
+            if c['form'] not in ('src_only', 'dynamic'):
                 kw['edge_var_map']['s_post'] = f'{tp}/{top}/{c["post"]}'
         if c.get('delay'):
             kw['delays'] = c['delay']
@@ -311,7 +330,11 @@ def run_case(case, ctx):
         dt = 1e-3
         # ---- vector field of the population circuit (only meaningful without ring buffers: buffers hold state) ----------------
         tmpl = build_population_circuit(plan_)
-        if not has_delay:
+        has_dynamic = any(c['kind'] == 'coupling' and c.get('form') == 'dynamic' for c in plan_['conns'])
+        if has_dynamic:
+            mech['dynamic_coupling_models'] = 1
+        # (edge state variables all start at 0 and cannot be located by value: dynamic couplings are decided on trajectories)
+        if not has_delay and not has_dynamic:
             try:
                 f, args, names, smap = tmpl.get_run_func('vf', step_size=dt, vectorize=True, verbose=False, clear=True, in_place=False,
                                                          float_precision='float64')
